@@ -473,11 +473,15 @@ def mode_getters(F, mode):
     out = {}
     for p in cg.reachable_from(set(roots)):
         f = F.fn(p)
-        if f is None or p == FUNNEL or p.startswith(others):
+        if f is None or p.startswith(others):
             continue
         for bi, t in f.calls():
             c = t['func'].get('path') or ''
             if c.startswith(DIFF + '::get_'):
+                # the funnel hands the four map-attribute slots to the builder for every mode (which of them a mode's output depends on is C17's business);
+                # any OTHER setting it starts to read is read on behalf of every mode
+                if p == FUNNEL and c.split('::')[-1] in ('get_ar', 'get_cs', 'get_hp', 'get_od'):
+                    continue
                 out.setdefault(c.split('::')[-1], set()).add(p)
     return out
 
